@@ -94,7 +94,8 @@ type smPath struct {
 	Calls            []callUse
 	Assumes          []string
 	Undecided        []string
-	Continue         bool // a `continue` of the main loop lies on the path
+	Inlined          []string // helpers walked in place on this path
+	Continue         bool     // a `continue` of the main loop lies on the path
 	RClass           []string
 }
 
@@ -167,10 +168,13 @@ type pst struct {
 	urlNil    tri
 	done      bool
 	brk       string
+	inl       []inlFrame // helpers being walked in place (innermost last)
 }
 
 func (s *pst) clone() *pst {
 	n := &pst{path: s.path, eofSynced: s.eofSynced, urlNil: s.urlNil, done: s.done, brk: s.brk}
+	n.inl = append([]inlFrame(nil), s.inl...)
+	n.path.Inlined = append([]string(nil), s.path.Inlined...)
 	n.path.Cursor = append([]cursorOp(nil), s.path.Cursor...)
 	n.path.Effects = append([]fieldEff(nil), s.path.Effects...)
 	n.path.Handlers = append([]handlerUse(nil), s.path.Handlers...)
@@ -222,11 +226,36 @@ func (s *pst) clone() *pst {
 	return n
 }
 
+// mentions: p occurs in txt as (the beginning of) an identifier path — not inside a longer identifier
+// ("err" does not occur in "stateOverride").
+func mentions(txt, p string) bool {
+	isId := func(c byte) bool {
+		return c == '_' || (c >= '0' && c <= '9') || (c >= 'a' && c <= 'z') || (c >= 'A' && c <= 'Z')
+	}
+	for from := 0; from < len(txt); {
+		i := strings.Index(txt[from:], p)
+		if i < 0 {
+			return false
+		}
+		i += from
+		okBefore := i == 0 || !isId(txt[i-1])
+		okAfter := true
+		if len(p) > 0 && isId(p[len(p)-1]) && i+len(p) < len(txt) && isId(txt[i+len(p)]) {
+			okAfter = false
+		}
+		if okBefore && okAfter {
+			return true
+		}
+		from = i + 1
+	}
+	return false
+}
+
 func (s *pst) invalidate(prefixes ...string) {
 	for o, d := range s.defs {
 		txt := types.ExprString(d)
 		for _, p := range prefixes {
-			if strings.Contains(txt, p) {
+			if mentions(txt, p) {
 				delete(s.defs, o)
 				delete(s.boolDefs, o)
 				break
@@ -235,7 +264,7 @@ func (s *pst) invalidate(prefixes ...string) {
 	}
 	for k := range s.facts {
 		for _, p := range prefixes {
-			if strings.Contains(k, p) {
+			if mentions(k, p) {
 				delete(s.facts, k)
 				break
 			}
@@ -271,6 +300,10 @@ type smAn struct {
 	preds                                                                 map[*types.Func]*predSummary
 	ctx                                                                   smContext
 	problems                                                              []string
+	carried                                                               map[types.Object]ast.Expr
+	decls                                                                 map[*types.Func]*ast.FuncDecl
+	inlMemo                                                               map[*types.Func]*ast.FuncDecl
+	hostTypes                                                             map[string]bool
 }
 
 type smModel struct {
@@ -401,6 +434,46 @@ func (a *smAn) pureExpr(e ast.Expr) bool {
 	return pure
 }
 
+// baseOnly: a side-effect-free expression that reads nothing but the base URL (a private copy that is never written),
+// the state-override parameter and constants.
+func (a *smAn) baseOnly(e ast.Expr) bool {
+	if !a.pureExpr(e) {
+		return false
+	}
+	ok := true
+	ast.Inspect(e, func(n ast.Node) bool {
+		switch x := n.(type) {
+		case *ast.SelectorExpr:
+			// only the root matters; field and method names are not variables
+			ast.Inspect(x.X, func(m ast.Node) bool {
+				if id, isId := m.(*ast.Ident); isId {
+					if o := a.obj(id); o != a.baseObj && o != a.ovParam {
+						if _, isVar := o.(*types.Var); isVar {
+							if v := o.(*types.Var); !v.IsField() {
+								ok = false
+							}
+						}
+					}
+				}
+				return ok
+			})
+			return false
+		case *ast.Ident:
+			o := a.obj(x)
+			if o == nil || o == a.baseObj || o == a.ovParam {
+				return true
+			}
+			switch o.(type) {
+			case *types.Const, *types.Nil, *types.Builtin, *types.TypeName, *types.Func, *types.PkgName:
+				return true
+			}
+			ok = false
+		}
+		return ok
+	})
+	return ok
+}
+
 // rootIdent returns the object at the root of a selector chain x.a.b / x.a.b().
 func (a *smAn) rootObj(e ast.Expr) types.Object {
 	for {
@@ -444,7 +517,7 @@ func (a *smAn) baseField(e ast.Expr) (string, bool) {
 // ---------- anchors ----------
 
 func buildSMAn(c *Ctx) (*smAn, error) {
-	a := &smAn{c: c, stateNames: map[int64]string{}, stateVals: map[string]int64{}, clauses: map[string]*ast.CaseClause{}, cursorClass: map[string]string{}, preds: map[*types.Func]*predSummary{}}
+	a := &smAn{c: c, stateNames: map[int64]string{}, stateVals: map[string]int64{}, clauses: map[string]*ast.CaseClause{}, cursorClass: map[string]string{}, preds: map[*types.Func]*predSummary{}, inlMemo: map[*types.Func]*ast.FuncDecl{}}
 	a.fn = c.P.Func("url", "parser", "BasicParser")
 	if a.fn == nil {
 		return nil, fmt.Errorf("anchor (*parser).BasicParser not found")
@@ -517,27 +590,83 @@ func buildSMAn(c *Ctx) (*smAn, error) {
 		}
 		return true
 	})
-	// base: the one local variable of type *Url (the private copy of the base argument), however it is declared
-	ast.Inspect(a.fd.Body, func(n ast.Node) bool {
-		id, ok := n.(*ast.Ident)
-		if !ok {
-			return true
-		}
-		o := a.info.Defs[id]
-		if o == nil || !types.Identical(o.Type(), types.NewPointer(urlT)) {
-			return true
-		}
-		for _, up := range urlParams {
-			if o == up {
-				return true
+	if a.urlObj == nil && len(a.fd.Body.List) > 0 {
+		// … or the *Url parameter handed back by the final `return X, nil`
+		if r, ok := a.fd.Body.List[len(a.fd.Body.List)-1].(*ast.ReturnStmt); ok && len(r.Results) == 2 && isNilIdent(r.Results[1]) {
+			if id, ok := ast.Unparen(r.Results[0]).(*ast.Ident); ok {
+				for _, up := range urlParams {
+					if a.obj(id) == up {
+						a.urlObj = up
+					}
+				}
 			}
 		}
-		if a.baseObj != nil && a.baseObj != o {
-			a.problems = append(a.problems, "more than one local *Url variable in BasicParser")
+	}
+	for _, up := range urlParams {
+		if up != a.urlObj {
+			a.baseUrlObj = up
 		}
-		a.baseObj = o
+	}
+	// base: the local variable of type *Url that receives (a copy of) the base argument, however it is declared; other
+	// local *Url variables (a helper's result) are not anchors
+	var locals []types.Object
+	fromBase := map[types.Object]bool{}
+	mentionsBase := func(e ast.Node) bool {
+		found := false
+		ast.Inspect(e, func(n ast.Node) bool {
+			if id, ok := n.(*ast.Ident); ok && a.baseUrlObj != nil && a.info.Uses[id] == a.baseUrlObj {
+				found = true
+			}
+			return !found
+		})
+		return found
+	}
+	ast.Inspect(a.fd.Body, func(n ast.Node) bool {
+		switch x := n.(type) {
+		case *ast.Ident:
+			o := a.info.Defs[x]
+			if o == nil || !types.Identical(o.Type(), types.NewPointer(urlT)) {
+				return true
+			}
+			for _, up := range urlParams {
+				if o == up {
+					return true
+				}
+			}
+			locals = append(locals, o)
+		case *ast.AssignStmt:
+			if len(x.Lhs) == len(x.Rhs) {
+				for i, l := range x.Lhs {
+					if id, ok := l.(*ast.Ident); ok && mentionsBase(x.Rhs[i]) {
+						fromBase[a.obj(id)] = true
+					}
+				}
+			}
+		case *ast.ValueSpec:
+			if len(x.Names) == len(x.Values) {
+				for i, nm := range x.Names {
+					if mentionsBase(x.Values[i]) {
+						fromBase[a.info.Defs[nm]] = true
+					}
+				}
+			}
+		}
 		return true
 	})
+	var cands []types.Object
+	for _, o := range locals {
+		if fromBase[o] {
+			cands = append(cands, o)
+		}
+	}
+	switch {
+	case len(cands) == 1:
+		a.baseObj = cands[0]
+	case len(cands) == 0 && len(locals) == 1:
+		a.baseObj = locals[0]
+	case len(locals) > 0:
+		a.problems = append(a.problems, "cannot tell which local *Url variable of BasicParser holds the base")
+	}
 	for _, up := range urlParams {
 		if up != a.urlObj {
 			a.baseUrlObj = up
@@ -1152,6 +1281,60 @@ func (a *smAn) atom(e ast.Expr, s *pst) []vs {
 			return a.evalBool(d, s)
 		}
 	}
+	// comparisons decided by constants: two constants (a helper's answer carried in a local), or the state override
+	// parameter against a constant (its value is fixed by the context)
+	if be, ok := e.(*ast.BinaryExpr); ok {
+		switch be.Op {
+		case token.EQL, token.NEQ, token.LSS, token.LEQ, token.GTR, token.GEQ:
+			xs, ys := ast.Unparen(a.subst(be.X, s, 0)), ast.Unparen(a.subst(be.Y, s, 0))
+			cv := func(e ast.Expr) (int64, bool) {
+				if a.isIdent(e, a.ovParam) {
+					return a.ctx.OverrideVal, true
+				}
+				if a.isIdent(e, a.stateObj) && s.path.State != "<prologue>" {
+					// the state variable holds the state being walked, or what this path assigned to it
+					name := s.path.State
+					if s.path.Next != "" && s.path.Next != "?" {
+						name = s.path.Next
+					}
+					if v, ok := a.stateVals[name]; ok {
+						return v, true
+					}
+				}
+				if tv, ok := a.info.Types[e]; ok && tv.Value != nil && tv.Value.Kind() == constant.Int {
+					v, ok := constant.Int64Val(tv.Value)
+					return v, ok
+				}
+				return 0, false
+			}
+			if l, ok1 := cv(xs); ok1 {
+				if r, ok2 := cv(ys); ok2 {
+					var v bool
+					switch be.Op {
+					case token.EQL:
+						v = l == r
+					case token.NEQ:
+						v = l != r
+					case token.LSS:
+						v = l < r
+					case token.LEQ:
+						v = l <= r
+					case token.GTR:
+						v = l > r
+					case token.GEQ:
+						v = l >= r
+					}
+					return []vs{{s, v}}
+				}
+			}
+			// nil against nil / against the url (a helper's *Url answer)
+			if be.Op == token.EQL || be.Op == token.NEQ {
+				if isNilIdent(xs) && isNilIdent(ys) {
+					return []vs{{s, be.Op == token.EQL}}
+				}
+			}
+		}
+	}
 	if be, ok := e.(*ast.BinaryExpr); ok && (be.Op == token.EQL || be.Op == token.NEQ) {
 		eq := be.Op == token.EQL
 		for _, pr := range [][2]ast.Expr{{be.X, be.Y}, {be.Y, be.X}} {
@@ -1189,6 +1372,10 @@ func (a *smAn) atom(e ast.Expr, s *pst) []vs {
 			}
 			// err != nil
 			if id, ok := ast.Unparen(x).(*ast.Ident); ok && isNilIdent(y) {
+				if v, known := s.nonNil[a.obj(id)]; known && a.obj(id) != nil {
+					// already tested on this path (or a copy of a tested value handed back by a helper)
+					return []vs{{s, v != eq}}
+				}
 				if ev := s.errs[a.obj(id)]; ev != nil {
 					o := a.obj(id)
 					var out []vs
@@ -1345,10 +1532,22 @@ func (a *smAn) stmt(st ast.Stmt, s *pst) []*pst {
 	case *ast.BlockStmt:
 		return a.walk(x.List, []*pst{s})
 	case *ast.ExprStmt:
+		if call, ok := ast.Unparen(x.X).(*ast.CallExpr); ok {
+			if out, ok := a.inlineCall(call, nil, token.ASSIGN, s); ok {
+				return out
+			}
+		}
 		n := s.clone()
 		a.scan(x.X, n)
 		return []*pst{n}
 	case *ast.AssignStmt:
+		if len(x.Rhs) == 1 {
+			if call, ok := ast.Unparen(x.Rhs[0]).(*ast.CallExpr); ok {
+				if out, ok := a.inlineCall(call, x.Lhs, x.Tok, s); ok {
+					return out
+				}
+			}
+		}
 		n := s.clone()
 		a.assign(x, n)
 		return []*pst{n}
@@ -1361,6 +1560,9 @@ func (a *smAn) stmt(st ast.Stmt, s *pst) []*pst {
 		n.invalidate(a.str(x.X))
 		return []*pst{n}
 	case *ast.ReturnStmt:
+		if len(s.inl) > 0 {
+			return []*pst{a.inlineReturn(x, s)}
+		}
 		n := s.clone()
 		for _, r := range x.Results {
 			a.scan(r, n)
@@ -1531,7 +1733,8 @@ func (a *smAn) ret(x *ast.ReturnStmt, s *pst) {
 		s.path.RetKind = "bad"
 		return
 	}
-	r0, r1 := x.Results[0], x.Results[1]
+	// locals that merely carry the outcome of a helper stand for what they were given
+	r0, r1 := ast.Unparen(a.subst(x.Results[0], s, 0)), ast.Unparen(a.subst(x.Results[1], s, 0))
 	switch {
 	case isNilIdent(r1) && a.isIdent(r0, a.urlObj):
 		if s.urlNil == triF {
@@ -1598,6 +1801,49 @@ func (a *smAn) assign(x *ast.AssignStmt, s *pst) {
 			}
 		}
 	}
+	// an error (or nil) handed on to another variable keeps what is known about it
+	if len(x.Rhs) == len(x.Lhs) {
+		type carry struct {
+			ev     *errVar
+			nn, kn bool
+		}
+		var cs []*carry
+		for _, r := range x.Rhs {
+			var cy *carry
+			rr := ast.Unparen(r)
+			if isNilIdent(rr) {
+				cy = &carry{nn: false, kn: true}
+			} else if id, ok := rr.(*ast.Ident); ok {
+				if o := a.obj(id); o != nil && types.Identical(o.Type(), types.Universe.Lookup("error").Type()) {
+					cy = &carry{ev: s.errs[o]}
+					cy.nn, cy.kn = s.nonNil[o]
+				}
+			}
+			cs = append(cs, cy)
+		}
+		defer func() {
+			for i, l := range x.Lhs {
+				id, ok := ast.Unparen(l).(*ast.Ident)
+				if !ok || id.Name == "_" || cs[i] == nil {
+					continue
+				}
+				o := a.obj(id)
+				if o == nil || !types.Identical(o.Type(), types.Universe.Lookup("error").Type()) {
+					continue
+				}
+				if cs[i].ev != nil {
+					s.errs[o] = cs[i].ev
+				} else {
+					delete(s.errs, o)
+				}
+				if cs[i].kn {
+					s.nonNil[o] = cs[i].nn
+				} else {
+					delete(s.nonNil, o)
+				}
+			}
+		}()
+	}
 	for i, l := range x.Lhs {
 		var r ast.Expr
 		if len(x.Rhs) == len(x.Lhs) {
@@ -1614,6 +1860,12 @@ func (a *smAn) assign(x *ast.AssignStmt, s *pst) {
 			if o == a.stateObj {
 				s.path.NextPos = x.Pos()
 				if r != nil {
+					r = ast.Unparen(a.subst(r, s, 0))
+					if a.isIdent(r, a.stateObj) {
+						// state = state (a helper answering "stay"): no transition
+						s.path.NextPos = token.NoPos
+						continue
+					}
 					if tv, ok := a.info.Types[r]; ok && tv.Value != nil {
 						v, _ := constant.Int64Val(tv.Value)
 						s.path.Next = a.stateNames[v]
@@ -1646,6 +1898,9 @@ func (a *smAn) assign(x *ast.AssignStmt, s *pst) {
 				}
 			}
 			if o == a.urlObj {
+				if r != nil && a.isIdent(ast.Unparen(a.subst(r, s, 0)), a.urlObj) {
+					continue // url = url (handed back by a helper): nothing changes
+				}
 				if u, ok := ast.Unparen(r).(*ast.UnaryExpr); ok && u.Op == token.AND {
 					s.urlNil = triF
 				} else {
@@ -1834,6 +2089,8 @@ func (a *smAn) explore(ctx smContext) (paths []*smPath, reach []string) {
 		p0.urlNil = triF
 	}
 	entry := map[string]bool{}
+	// definitions made before the loop that only read the (private, never written) base and constants hold in every state
+	var carried map[types.Object]ast.Expr
 	for _, s := range a.walk(a.prologue, []*pst{p0}) {
 		s.path.RClass = nil
 		pp := s.path
@@ -1843,8 +2100,24 @@ func (a *smAn) explore(ctx smContext) (paths []*smPath, reach []string) {
 				pp.Undecided = append(pp.Undecided, "url may be nil when the main loop is entered")
 			}
 			entry[s.path.Next] = true
+			here := map[types.Object]ast.Expr{}
+			for o, d := range s.defs {
+				if a.baseOnly(d) {
+					here[o] = d
+				}
+			}
+			if carried == nil {
+				carried = here
+			} else {
+				for o, d := range carried {
+					if d2, ok := here[o]; !ok || types.ExprString(d2) != types.ExprString(d) {
+						delete(carried, o)
+					}
+				}
+			}
 		}
 	}
+	a.carried = carried
 	var work []string
 	for e := range entry {
 		work = append(work, e)
@@ -1864,8 +2137,17 @@ func (a *smAn) explore(ctx smContext) (paths []*smPath, reach []string) {
 			paths = append(paths, &smPath{Ctx: ctx.Name, State: st, Undecided: []string{"state " + st + " has no case clause"}})
 			continue
 		}
-		for _, s := range a.walk(body, []*pst{a.newState(st)}) {
-			if s.brk == "continue" {
+		st0 := a.newState(st)
+		for o, d := range a.carried {
+			st0.defs[o] = d
+			if types.Identical(o.Type().Underlying(), types.Typ[types.Bool]) {
+				st0.boolDefs[o] = d
+			}
+		}
+		for _, s := range a.walk(body, []*pst{st0}) {
+			if s.brk == "continue" && s.rclass["EOF"] {
+				// a `continue` while the code point may be EOF skips the loop's eof exit (otherwise the next round
+				// starts by advancing the cursor, like any other)
 				s.path.Continue = true
 			}
 			s.path.BufferEmptyAtEnd = s.bufState["buffer"] == "empty"
